@@ -318,6 +318,9 @@ pub(crate) fn skip_ipv6_header(mut packet: Bytes) -> Option<(libc::c_int, Bytes)
                 }
                 next_protocol = packet.get_u8() as libc::c_int;
                 let header_ext_length = packet.get_u8() as usize;
+                if packet.len() < header_ext_length {
+                    return None;
+                }
                 packet.advance(header_ext_length);
             }
             libc::IPPROTO_FRAGMENT => {
